@@ -25,7 +25,7 @@ ASSUMPTIONS = ["process-lifetime state of menu = the class attribute Menu.field_
 FIELDSETS = [["temp"], ["temp", "density"], ["temp", "density", "Y(H2)"], ["Y(H2)", "Y(O2)", "temp", "Z", "Zvar"],
              ["Z", "Zvar", "a"], ["Zvar", "Z"], ["x_velocity", "y_velocity", "volFrac", "a"], ["a", "ab", "abc"],
              ["a.c", "abc", "Y(N2)"], ["density", "Y(H2)", "Y(O2)", "Y(N2)"], ["I_R(H2)", "Y(H2)", "gradpx", "D_H2", "rhoh"],
-             ["Y(CH2(S))", "Y(CH2)", "Y(C(S))", "temp"]]
+             ["Y(CH2(S))", "Y(CH2)", "Y(C(S))", "temp"], ["density", "rho", "temp", "Rho", "Y(H2)", "Temp"], ["phi", "x_velocity", "abc", "Y(O2)"]]
 
 
 def bounds(tier):
